@@ -8,6 +8,7 @@ import py2v_prox
 from common import CORPUS
 
 CONFIG = {
+    "source_ties": 'Since round 7 also tied statically: harness/py2v_prox.py translates the decision expressions of ProximityArchive.compute_novelty / add on every run; Refine/ProxRefine.v proves them equal to kk / is_novel / lower / grown_store of Model/Proximity.v for all arguments; harness/kd_scan.py pins the k-D tree call sites.',
     "cone": ["Base/ListUtil.v", "Base/QUtil.v", "Base/FirstArgmax.v", "Model/Store.v", "Proofs/StoreProofs.v", "Model/Archive.v",
              "Proofs/ArchiveProofs.v", "Proofs/C01Proofs.v", "Proofs/C02Proofs.v", "Model/Proximity.v", "Proofs/KnnProofs.v", "Proofs/ProximityProofs.v",
              "Proofs/C14Proofs.v", "Properties/C14.v", "Proofs/C06Proofs.v", "Proofs/ProximityStats.v", "Properties/C06Proximity.v",
